@@ -268,6 +268,7 @@ func RunC19(c *engine.Ctx) {
 		rec(nil)
 	}
 	collisions(c)
+	overwrites(c)
 	if SeamOn() {
 		faults(c)
 	}
@@ -303,6 +304,31 @@ func collisions(c *engine.Ctx) {
 					t.Outcome("pair-ok")
 					return nil
 				})
+			}
+		}
+	}
+}
+
+// overwrites: every ordered pair of documents (including two of equal encoded length) stored under one identifier.
+func overwrites(c *engine.Ctx) {
+	c.Group("overwrite-pairs")
+	kinds := []string{"d1", "d2", "meta", "d3", "e1", "e2"}
+	c.Bound("overwrite-pairs", fmt.Sprintf("all %d ordered pairs of %d documents (two of equal encoded length) stored one after the other under the same identifier x both no-clobber settings x 2 identifiers", len(kinds)*len(kinds), len(kinds)))
+	for _, id := range []string{"a", "é✓"} {
+		for _, k1 := range kinds {
+			for _, k2 := range kinds {
+				for _, nc := range []bool{false, true} {
+					id, k1, k2, nc := id, k1, k2, nc
+					h := []op{{Kind: "store", Doc: k1, ID: id}, {Kind: "store", Doc: k2, ID: id, NoClobber: nc}, {Kind: "retrieve", ID: id}, {Kind: "store", Doc: k1, ID: id}, {Kind: "retrieve", ID: id}}
+					c.Case(func() any { return map[string]any{"id": id, "first": k1, "second": k2, "noClobber": nc} }, func(t *engine.T) *engine.Violation {
+						if v := runHistory(t, startStates[0], h, 0, nil); v != nil {
+							return v
+						}
+						t.State(fmt.Sprintf("ow|%s|%s|%s|%v", id, k1, k2, nc))
+						t.Outcome("overwrite-ok")
+						return nil
+					})
+				}
 			}
 		}
 	}
